@@ -215,7 +215,7 @@ SCENARIOS.append(Scenario("C01.eager.eval_function", s_eval_function,
                           [("onnxscript/_internal/evaluator.py", "BaseEvaluator.eval_function"), ("onnxscript/_internal/evaluator.py", "_adapt_to_eager_mode"),
                            ("onnxscript/_internal/evaluator.py", "_adapt_to_eager_mode.adapt")],
                           kind="bounded", bound="one positional and one keyword input over 7 value kinds, one positional and one keyword attribute",
-                          trusted=["param_manipulation.tag_arguments_with_signature pairs each argument with its parameter (not under contract)"]))
+                          trusted=["param_manipulation.tag_arguments_with_signature pairs each argument with its parameter (its own contract: contracts/c01_calling.py)"]))
 
 
 class Tok:
